@@ -955,3 +955,17 @@ Print Assumptions C01_file_level_client_example.
      findings F21 / F22 and outside [q_edns q = None \/ q_edns q = Some 0].
    * inherited from C01_response_is_spec: DS at or below a delegation, order inside sections, the weighted
      draw (C11), completeness of the additional section of authoritative answers. *)
+
+(* the guard [maps_once] is needed: two M lines for one name with different maps put two map records under
+   one key; two CDB streams of the SAME file (the codec's order and its reverse - both are Put sequences the
+   parallel parser can produce) locate the same client (resolver 10.1.2.3, name example.com) in ab and in cd *)
+Theorem C01_maps_once_needed :
+  wf_file y_o 7 z_file = true /\ loc_file_okb y_o 7 z_file = true /\ subnet_locs_okb y_o 7 z_file = true /\
+  (forall m, wf_subnets (declared_subnets (parsed y_o 7 z_file) m)) /\
+  ~ maps_once (parsed y_o 7 z_file) /\
+  compile_cdb bytes (conv_line y_o 7 false false) z_file z_Rc = Ok z_Rc /\
+  compile_cdb bytes (conv_line y_o 7 false false) z_file (rev z_Rc) = Ok (rev z_Rc) /\
+  found_loc (client_location (BCdb true) z_Rc (pack [y_example; y_com]) y_c1) = Some (97, 98) /\
+  found_loc (client_location (BCdb true) (rev z_Rc) (pack [y_example; y_com]) y_c1) = Some (99, 100).
+Proof. exact maps_once_needed. Qed.
+Print Assumptions C01_maps_once_needed.
